@@ -2,17 +2,34 @@
 // replay: ./check C14 --replay /verif/replays/C14/c14_doubling_step_any_state.rs
 /// Test generated for harness `retry::verif_retry::c14_doubling_step_any_state` 
 ///
+/// Check for `assertion`: ""[C14] next delay is min(2*current, max)""
+
+#[test]
+fn kani_concrete_playback_c14_doubling_step_any_state_6768158572003826314() {
+    let concrete_vals: Vec<Vec<u8>> = vec![
+        // 9223372036854775807ul
+        vec![255, 255, 255, 255, 255, 255, 255, 127],
+        // 18446744073675997183ul
+        vec![255, 255, 255, 253, 255, 255, 255, 255],
+        // 18446744073709551615ul
+        vec![255, 255, 255, 255, 255, 255, 255, 255],
+    ];
+    kani::concrete_playback_run(concrete_vals, c14_doubling_step_any_state);
+}
+
+/// Test generated for harness `retry::verif_retry::c14_doubling_step_any_state` 
+///
 /// Check for `cover`: "doubling would overflow u64 seconds"
 
 #[test]
-fn kani_concrete_playback_c14_doubling_step_any_state_13841233959293540562() {
+fn kani_concrete_playback_c14_doubling_step_any_state_6224072404168548810() {
     let concrete_vals: Vec<Vec<u8>> = vec![
-        // 0ul
-        vec![0, 0, 0, 0, 0, 0, 0, 0],
-        // 9223372036854775808ul
-        vec![0, 0, 0, 0, 0, 0, 0, 128],
-        // 9223372036854775808ul
-        vec![0, 0, 0, 0, 0, 0, 0, 128],
+        // 9223372036854775807ul
+        vec![255, 255, 255, 255, 255, 255, 255, 127],
+        // 18446744073709551615ul
+        vec![255, 255, 255, 255, 255, 255, 255, 255],
+        // 18446744073709551615ul
+        vec![255, 255, 255, 255, 255, 255, 255, 255],
     ];
     kani::concrete_playback_run(concrete_vals, c14_doubling_step_any_state);
 }
@@ -22,14 +39,14 @@ fn kani_concrete_playback_c14_doubling_step_any_state_13841233959293540562() {
 /// Check for `cover`: "plain doubling"
 
 #[test]
-fn kani_concrete_playback_c14_doubling_step_any_state_16565626828624471836() {
+fn kani_concrete_playback_c14_doubling_step_any_state_12887614913478756672() {
     let concrete_vals: Vec<Vec<u8>> = vec![
         // 0ul
         vec![0, 0, 0, 0, 0, 0, 0, 0],
-        // 0ul
-        vec![0, 0, 0, 0, 0, 0, 0, 0],
-        // 1ul
-        vec![1, 0, 0, 0, 0, 0, 0, 0],
+        // 4611686018427387904ul
+        vec![0, 0, 0, 0, 0, 0, 0, 64],
+        // 9223372036854775808ul
+        vec![0, 0, 0, 0, 0, 0, 0, 128],
     ];
     kani::concrete_playback_run(concrete_vals, c14_doubling_step_any_state);
 }
